@@ -8,6 +8,8 @@ import Drive.Tree
 import Drive.Buffer
 import Drive.Alloc
 import Drive.Cache
+import Drive.Ring
+import Drive.Node
 open Drive
 
 /-- component name -> validator.  A component may serve several streams. -/
@@ -20,7 +22,9 @@ def components : List (String × (IO.FS.Stream → IO Verdict)) :=
    ("tree", Drive.Tree.run),
    ("buffer", Drive.Buffer.run),
    ("alloc", Drive.Alloc.run),
-   ("cache", Drive.Cache.run)]
+   ("cache", Drive.Cache.run),
+   ("ring", Drive.Ring.run),
+   ("node", Drive.Node.run)]
 
 def main (args : List String) : IO UInt32 := do
   match args with
